@@ -3496,6 +3496,15 @@ impl SctpInner {
         let cwnd_val = self.cwnd_tx.load(Ordering::Relaxed);
         let flight_val = self.flight_size.load(Ordering::Relaxed);
         let rwnd_val = self.peer_rwnd.load(Ordering::Relaxed) as usize;
+        // Zero-window probe (RFC 4960 §6.1 rule A): with a closed peer window and
+        // nothing in flight one DATA chunk may still be sent. Without it a lost
+        // window-update SACK leaves the sender waiting for ever, because the peer
+        // only SACKs when data arrives.
+        let rwnd_val = if rwnd_val == 0 && flight_val == 0 {
+            1 // any positive credit lets exactly one chunk through below
+        } else {
+            rwnd_val
+        };
 
         // (fast_recovery state still influences CC growth in handle_sack; the
         // burst limit itself is now uniformly 4 per RFC 8261.)
